@@ -130,19 +130,63 @@ FLT_LITS = [0.0, 0.0, 1.0, 1.0, 0.5, 1.5, 2.5, 3.5, 0.1, 3.0]
 INT_ENV = ["x0", "x1", "x2", "x3"]
 FLT_ENV = ["f0", "f1", "f2", "f3"]
 N_OUT = 6
+N_INT = 4
+
+
+def int_cell(draw):
+    """An element of the writable int array t->mode_ordering (N_INT cells holding 0..N_INT-1): constant index, or an
+    index read from the array itself (a[a[c]]), so that a store can change what a later, textually equal, target
+    expression denotes."""
+    c = ["int", draw(st.integers(0, N_INT - 1))]
+    if draw(st.integers(0, 2)) == 0:
+        return ["aidx", "mode_ordering", ["aidx", "mode_ordering", c]]
+    return ["aidx", "mode_ordering", c]
 
 
 @st.composite
 def expr(draw, ty, depth, scope):
     """scope: {'int': [names], 'float': [...], 'bool': [...]}"""
+    # syntactic-equality rewrites (x == x, a = e; a = e2, (a <= b) && (a >= b) ...) only fire when the *same*
+    # sub-expression occurs twice, which independent draws almost never produce: one draw in six re-uses an
+    # expression generated earlier for the same type whose variables are still in scope
+    pool = scope.setdefault("_pool", {"int": [], "float": [], "bool": []})
+    if pool[ty] and draw(st.integers(0, 5)) == 0:
+        names = set(scope["int"]) | set(scope["float"]) | set(scope["bool"])
+        ok = [e for e in pool[ty][-12:] if vars_of(e) <= names and expr_depth(e) <= depth + 1]
+        if ok:
+            return draw(st.sampled_from(ok))
+    e = draw(_expr(ty, depth, scope))
+    if not (e[0] in ("int", "flt", "bool")):
+        pool[ty].append(e)
+    return e
+
+
+def vars_of(e):
+    if e[0] == "var":
+        return {e[1]}
+    out = set()
+    for c in e[1:]:
+        if isinstance(c, list):
+            out |= vars_of(c)
+    return out
+
+
+def expr_depth(e):
+    return 1 + max([expr_depth(c) for c in e[1:] if isinstance(c, list)] or [0])
+
+
+@st.composite
+def _expr(draw, ty, depth, scope):
     leafy = depth == 0 or draw(st.integers(0, 9)) < 3
     if ty == "int":
         if leafy:
-            r = draw(st.integers(0, 9))
+            r = draw(st.integers(0, 10))
             if r < 5 and scope["int"]:
                 return ["var", draw(st.sampled_from(scope["int"]))]
             if r < 6:
                 return ["aidx", "dimensions", ["int", draw(st.integers(0, 3))]]
+            if r < 7:
+                return int_cell(draw)
             return ["int", draw(st.sampled_from(INT_LITS))]
         r = draw(st.integers(0, 11))
         if r < 7:
@@ -182,6 +226,14 @@ def expr(draw, ty, depth, scope):
         l = draw(expr(t2, depth - 1, scope))
         rr = l if draw(st.integers(0, 4)) == 0 else draw(expr(t2, depth - 1, scope))
         return [op, l, rr]
+    if r < 6:
+        # two comparisons over the same operand pair (possibly swapped): a <= b && a >= b, a < b || b < a, ...
+        t2 = draw(st.sampled_from(["int", "int", "float"]))
+        a, b = draw(expr(t2, max(depth - 2, 0), scope)), draw(expr(t2, max(depth - 2, 0), scope))
+        cmp_ = ["Equal", "NotEqual", "LessThan", "GreaterThan", "LessThanOrEqual", "GreaterThanOrEqual"]
+        c1 = [draw(st.sampled_from(cmp_)), a, b]
+        c2 = [draw(st.sampled_from(cmp_))] + ([a, b] if draw(st.integers(0, 2)) else [b, a])
+        return [draw(st.sampled_from(["And", "Or"])), c1, c2]
     return [draw(st.sampled_from(["And", "Or"])), draw(expr("bool", depth - 1, scope)), draw(expr("bool", depth - 1, scope))]
 
 
@@ -214,11 +266,22 @@ def statements(draw, depth, scope, counter, in_loop=False):
                     out.append(["assign", ["var", name], ["var", name]])
                 else:
                     out.append(["assign", ["var", name], draw(expr(ty, draw(st.integers(0, 3)), scope))])
-        elif r < 12:  # array store
+                    if draw(st.integers(0, 4)) == 0:
+                        out.append(["assign", ["var", name], draw(expr(ty, draw(st.integers(0, 2)), scope))])
+        elif r < 11:  # array store
             k = draw(st.integers(4, 4 + N_OUT - 1))
             idx = ["int", k] if draw(st.integers(0, 3)) else ["Add", ["int", k], ["Multiply", draw(expr("int", 1, scope)), ["int", 0]]]
             ety = draw(st.sampled_from(["float", "float", "int"]))
             out.append(["assign", ["aidx", "vals", idx], draw(expr(ety, draw(st.integers(0, 3)), scope))])
+            if draw(st.integers(0, 4)) == 0:  # overwritten at once (a dead store unless the value reads it)
+                out.append(["assign", ["aidx", "vals", idx], draw(expr(ety, draw(st.integers(0, 2)), scope))])
+        elif r < 12:  # store into the int array; the stored value stays a valid index (0..N_INT-1) half of the time
+            tgt = int_cell(draw)
+            val = ["int", draw(st.integers(0, N_INT - 1))] if draw(st.booleans()) else \
+                ["Min", ["Max", draw(expr("int", 1, scope)), ["int", 0]], ["int", N_INT - 1]]
+            out.append(["assign", tgt, val])
+            if draw(st.integers(0, 1)) == 0:  # the same target expression again: may denote another cell by now
+                out.append(["assign", tgt, ["int", draw(st.integers(0, N_INT - 1))] if draw(st.booleans()) else draw(expr("int", 1, scope))])
         elif r < 13:  # self store  vals[k] = vals[k]
             k = draw(st.integers(4, 4 + N_OUT - 1))
             out.append(["assign", ["aidx", "vals", ["int", k]], ["aidx", "vals", ["int", k]]])
@@ -271,6 +334,7 @@ def ir_programs(draw, tier):
     for _ in range(4):
         envs.append({
             "ints": [draw(st.integers(-3, 3)) for _ in range(4)],
+            "iarr": [draw(st.integers(0, N_INT - 1)) for _ in range(N_INT)],
             # dyadic values keep most programs exact; the others (0.1, 1/3, 1e-300, 1e200, ...) expose rewrites that
             # are only equal up to rounding or that overflow/underflow differently
             "floats": [draw(st.sampled_from([0.0, 1.0, -1.5, 0.5, 2.25, 3.0, -2.0, 0.125, 0.1, 1 / 3, 0.7, 1e-300, 1e200,
@@ -341,6 +405,7 @@ def run_program(fn, env, scoping="c"):
     m.log_access = True
     st_ = TensorStruct("t", writable=False)
     st_.fields["dimensions"] = Ptr(m.new_block("int", 4, "input", "t.dimensions", list(env["ints"])))
+    st_.fields["mode_ordering"] = Ptr(m.new_block("int", N_INT, "struct", "t.mode_ordering", list(env.get("iarr", [0] * N_INT))))
     st_.fields["vals"] = Ptr(m.new_block("float", 4 + N_OUT, "struct", "t.vals", list(env["floats"]) + [0.0] * N_OUT))
     rv = Interp(m, output_name="t", scoping=scoping).run(fn, [st_])
     if m.nonfinite_seen:
